@@ -22,7 +22,7 @@ ID = 'C03'
 HARNESS_BIN = None
 RUN_MODULE = 'Run.C03'
 REPO_BINS = ['sccache']
-THEOREMS = ['C03_hit_after_store', 'C03_hit_after_store_within_capacity', 'C03_restore_any_mount_layout', 'C03_damaged_entry_replaced', 'C03_key_ignores_unhashed', 'C03_key_ignores_output', 'C03_key_ignores_env',
+THEOREMS = ['C03_hit_after_store', 'C03_hit_after_store_within_capacity', 'C03_restore_any_mount_layout', 'C03_damaged_entry_replaced', 'C03_key_ignores_server_env', 'C03_failed_probe_leaves_no_trace', 'C03_key_ignores_unhashed', 'C03_key_ignores_output', 'C03_key_ignores_env',
             'C03_reopen_keeps_everything', 'C03_restart_preserves']
 ASSUMPTIONS = [
     'the hash is an arbitrary function key_of of the fingerprint (record of the hashed request components); '
@@ -32,6 +32,11 @@ ASSUMPTIONS = [
     'nobody but sccache touches the cache directory except through the modelled damage event (an entry file truncated: '
     'it stays indexed, is unreadable, and is replaced by the next store); other corruption shapes: C08/C09; I/O errors '
     'other than "file missing" and the 60 s lookup timeout are not modelled',
+    'rustc env-deps: the crate names the variables it reads, their values are observed in the client environment only '
+    '(C03_key_ignores_server_env); the e2e leg starts every server from a different environment (BUILD_TAG set / empty / '
+    'absent) while the clients rarely set it',
+    'a compiler probe that fails transiently refuses the request and changes nothing (C03_failed_probe_leaves_no_trace); '
+    'the e2e leg removes the server temp directory for the first request after a restart (gcc/clang)',
     'mounts: rename fails across mounts (EXDEV), mounts are assigned to directories by an arbitrary function '
     '(C03_restore_any_mount_layout); the e2e leg puts the server TMPDIR / the cache directory on another file system',
     'the repeated request\'s preprocessor / dep-info step succeeds (or is skipped by a preprocessor-cache hit): explicit '
@@ -55,6 +60,8 @@ HASHED_VARS = {'c': ['SCCACHE_C_CUSTOM_CACHE_BUSTER', 'SDKROOT'], 'rustc': ['CAR
 PP_ALLOW = ['SCCACHE_C_CUSTOM_CACHE_BUSTER', 'CPATH', 'C_INCLUDE_PATH', 'CPLUS_INCLUDE_PATH', 'OBJC_INCLUDE_PATH',
             'OBJCPLUS_INCLUDE_PATH']          # preprocessor_cache.rs CACHED_ENV_VARS (used for the abstract pp key only)
 PROFILE_FLAGS = ['-ftest-coverage', '--coverage', '-fprofile-generate']
+RUST_READ_VAR = 'BUILD_TAG'           # units 1 and 2 of the rustc histories read it with option_env!; clients rarely set it
+SERVER_ENVS = [[], [['BUILD_TAG', 'nightly-1']], [['BUILD_TAG', 'release-7'], ['FOO', 'srv']], [['BUILD_ID', '9']], [['BUILD_TAG', '']]]
 XFILES = ['x0.cfg', 'x1.cfg', 'x2.cfg', 'x3.cfg']
 RUST_EMITS = ['link', 'dep-info,link', 'metadata', 'dep-info,metadata', 'dep-info,metadata,link']   # cargo build / cargo check shapes
 NUNITS = 3
@@ -119,6 +126,7 @@ def gen_plan(rng, tool, pp, cap, nreq, idle_timeout=0):
 
     def vary(base):
         c = json.loads(json.dumps(base))
+        c.pop('fault', None)
         if c['bad']:
             c['out'] = fresh_out()          # a failing compile never targets an existing file
             if rng.chance(2, 3):
@@ -135,7 +143,10 @@ def gen_plan(rng, tool, pp, cap, nreq, idle_timeout=0):
         if 'out' in kinds:
             c['out'] = fresh_out()
         if 'env' in kinds:
-            set_env(rng.choice(UNRELATED_VARS), 'v%d' % rng.below(1000))
+            if tool == 'rustc' and rng.chance(1, 4):
+                set_env(RUST_READ_VAR, 't%d' % rng.below(2))      # hashed for the crates that read it, unrelated for the others
+            else:
+                set_env(rng.choice(UNRELATED_VARS), 'v%d' % rng.below(1000))
         if 'order' in kinds:
             c['cfgs'] = rng.shuffle(c['cfgs'])
             c['externs'] = rng.shuffle(c['externs'])
@@ -181,6 +192,9 @@ def gen_plan(rng, tool, pp, cap, nreq, idle_timeout=0):
         elif k == 'delete':
             steps.append({'op': 'delete', 'path': rng.choice(outs)})
             continue
+        elif k == 'restart':
+            steps.append({'op': 'restart', 'senv': rng.choice(SERVER_ENVS)})
+            continue
         else:
             steps.append({'op': k})
             continue
@@ -196,7 +210,21 @@ def gen_plan(rng, tool, pp, cap, nreq, idle_timeout=0):
                 steps.append({'op': 'delete_some', 'req': len(reqs), 'mask': rng.choice([0, 1, 2, 3])})
                 steps.append(json.loads(json.dumps(c)))
                 reqs.append(steps[-1])
-    good = [j for j, c in enumerate(reqs) if not c['bad']]
+    good = [j for j, c in enumerate(reqs) if not c['bad'] and not c.get('fault')]
+    if tool != 'rustc' and good and rng.chance(1, 2):
+        # a transient failure of the compiler probe: right after a restart the server's temp directory is missing while the
+        # (identical) request arrives; it is refused and compiled by the client.  Once repaired, the request must hit again.
+        j = rng.choice(good)
+        steps.append({'op': 'restart', 'senv': rng.choice(SERVER_ENVS)})
+        f = json.loads(json.dumps(reqs[j]))
+        f['fault'] = 'probe'
+        f['out'] = fresh_out()
+        steps.append(f)
+        reqs.append(f)
+        for _ in range(2):
+            steps.append({'op': 'delete_some', 'req': j + 1, 'mask': rng.choice([0, 1, 2, 3])})
+            steps.append(json.loads(json.dumps(reqs[j])))
+            reqs.append(steps[-1])
     if good and rng.chance(1, 2):
         # an entry file gets damaged (truncated: machine crash, full disk, bad copy), with the server running or stopped;
         # the next identical request recompiles and stores again, every further one must be served from the cache
@@ -217,14 +245,16 @@ def gen_plan(rng, tool, pp, cap, nreq, idle_timeout=0):
         for j in rng.shuffle(list(range(len(reqs)))):
             c = reqs[j]
             k = json.dumps({x: c[x] for x in c if x not in ('out', 'env')}, sort_keys=True)
-            if c['bad'] or k in seen or len(seen) >= 6:
+            if c['bad'] or c.get('fault') or k in seen or len(seen) >= 6:
                 continue
             seen.add(k)
             steps.append({'op': 'delete_some', 'req': j + 1, 'mask': rng.choice([0, 1, 2, 3])})
             steps.append(json.loads(json.dumps(c)))
     return {'tool': tool, 'pp': pp, 'cap': cap, 'idle_timeout': idle_timeout, 'steps': steps,
             # the server's TMPDIR (and, every other time, its cache directory) on ANOTHER file system than the build tree
-            'tmp_other_fs': rng.chance(1, 2), 'cache_other_fs': rng.chance(1, 4)}
+            'tmp_other_fs': rng.chance(1, 2), 'cache_other_fs': rng.chance(1, 4),
+            # the environment the first server is started from
+            'senv0': rng.choice(SERVER_ENVS)}
 
 
 def gen_plans(rng, tier):
@@ -289,6 +319,7 @@ UNIT_SRC_C = ('#include "u%(u)d.h"\n#include "common.h"\n#ifdef BAD_PRE\n#includ
 UNIT_HDR_C = '#define U%(u)d %(v)d\n'
 UNIT_SRC_RS = ('#[cfg(fa)] pub fn fa() -> u32 { 1 }\n#[cfg(fb)] pub fn fb() -> u32 { 2 }\n#[cfg(bad_pre)] compile_error!("bad_pre");\n'
                '#[cfg(bad_cc)] pub fn bad() -> u32 { "x" }\npub fn f%(u)d(x: u32) -> u32 { x + %(v)d }\n')
+UNIT_READS_RS = 'pub const TAG: Option<&str> = option_env!("BUILD_TAG");\n'
 
 
 class Inconclusive(Exception):
@@ -352,7 +383,8 @@ class Runner:
 
     def write_unit(self, u):
         if self.tool == 'rustc':
-            self.put('l%d.rs' % u, UNIT_SRC_RS % {'u': u, 'v': self.ver[(u, 'src')] * 7 + self.ver[(u, 'hdr')]})
+            self.put('l%d.rs' % u, UNIT_SRC_RS % {'u': u, 'v': self.ver[(u, 'src')] * 7 + self.ver[(u, 'hdr')]}
+                     + (UNIT_READS_RS if u >= 1 else ''))
         else:
             self.put('u%d.c' % u, UNIT_SRC_C % {'u': u, 'v': self.ver[(u, 'src')]})
             self.put('u%d.h' % u, UNIT_HDR_C % {'u': u, 'v': self.ver[(u, 'hdr')]})
@@ -396,10 +428,22 @@ class Runner:
     def sync_server(self, events, obs):
         """Histories with an idle timeout: if the server has shut itself down, that is a restart of the cache."""
         if not self.server_alive():
-            self.sc(['--start-server'])
+            self.start_server(events, obs, self.next_senv(), by='idle-timeout')
             self.server_pid = self.find_server()
-            events.append(['restart'])
-            obs.append({'op': 'restart', 'entries': self.entries(), 'by': 'idle-timeout'})
+
+    def start_server(self, events, obs, senv, **why):
+        """Start a server from the environment `senv` (on top of the fixed configuration); to the model: a restart."""
+        self.sc(['--start-server'], senv)
+        self.server_pid = None
+        events.append(['restart', [[k.encode(), v.encode()] for k, v in senv]])
+        obs.append(dict({'op': 'restart', 'entries': self.entries()}, **why))
+
+    def next_senv(self):
+        self.nstart = getattr(self, 'nstart', 0) + 1
+        return SERVER_ENVS[(self.nstart + len(self.plan['steps'])) % len(SERVER_ENVS)]
+
+    def reads(self, c):
+        return [RUST_READ_VAR] if (self.tool == 'rustc' and c['unit'] >= 1) else []
 
     def stats(self):
         rc, out, err = self.sc(['--show-stats', '--stats-format=json'])
@@ -408,7 +452,7 @@ class Runner:
         def tot(x):
             return sum(x['counts'].values()) if isinstance(x, dict) else x
         return {k: tot(d.get(k, 0)) for k in ('cache_hits', 'cache_misses', 'cache_writes', 'cache_write_errors', 'compilations',
-                                       'cache_errors', 'cache_read_errors', 'requests_executed', 'compile_fails', 'non_cacheable_compilations',
+                                       'cache_errors', 'cache_read_errors', 'requests_unsupported_compiler', 'requests_executed', 'compile_fails', 'non_cacheable_compilations',
                                        'requests_not_cacheable', 'requests_not_compile', 'cache_timeouts', 'forced_recaches')}
 
     def take_log(self):
@@ -545,7 +589,8 @@ class Runner:
                 args.append(['ext', ('deps/lib%s.rlib' % x).encode(), self.file_digest('deps/lib%s.rlib' % x)])
             args += [['h', b'l%d.rs' % u], ['out', c['out'].encode()]]
             inputs = [self.file_digest('l%d.rs' % u)]
-            return ['req', tag, 'rust', 7, args, [[k.encode(), v.encode()] for k, v in env], [], self.ws.encode(),
+            return ['req', tag, 'rust', 7, args, [[k.encode(), v.encode()] for k, v in env],
+                    [v.encode() for v in self.reads(c)], self.ws.encode(),
                     inputs, [[r.encode(), p.encode(), o] for r, p, o in self.outputs(c)], [], oracle]
         defs = self.defs(c)
         # -ftest-coverage sets `profile_generate`: the absolute object path then enters the key (model: AProfile)
@@ -584,7 +629,9 @@ class Runner:
         if self.tool == 'rustc':
             henv = sorted((k, v) for k, v in c['env']
                           if k.startswith('CARGO_') and k != 'CARGO_MAKEFLAGS' and not k.startswith('CARGO_REGISTRIES_'))
-            return ('rust', u, c['opt'], c['emit'], tuple(sorted(c['cfgs'] + self.badcfg(c))),
+            cenv = dict((k, v) for k, v in c['env'])
+            return ('rust', u, c['opt'], c['emit'], tuple((v, cenv.get(v)) for v in self.reads(c)),
+                    tuple(sorted(c['cfgs'] + self.badcfg(c))),
                     tuple(sorted((x, self.file_digest('deps/lib%s.rlib' % x)) for x in c['externs'])),
                     tuple(henv), self.ws, self.file_digest('l%d.rs' % u))
         henv = sorted((k, v) for k, v in c['env'] if k in C_ALLOW)
@@ -613,7 +660,7 @@ class Runner:
         for requests that stored nothing)."""
         obs = []
         events = []
-        self.sc(['--start-server'])
+        self.start_server(events, obs, self.plan.get('senv0', []))
         saved = {}                      # tag -> {role: sha}
         stored = {}                     # identity -> (tag, entry file, request, {file the compiler produced: sha})
         produced = {}                   # tag -> files written while the request was served
@@ -679,10 +726,7 @@ class Runner:
                     events.append(['damage', self.abstract(ent[0][2], ent[0][0], [1, 1, 1, 0, []]), newsize])
                     obs.append({'op': 'damage', 'entries': self.entries()})
                     if st.get('restart'):
-                        self.sc(['--start-server'])
-                        self.server_pid = None
-                        events.append(['restart'])
-                        obs.append({'op': 'restart', 'entries': self.entries()})
+                        self.start_server(events, obs, self.next_senv())
                     continue
                 if op == 'flatten_mtimes':
                     # server stopped; every file below the cache directory gets one of `values` shared whole-second mtimes
@@ -696,19 +740,13 @@ class Runner:
                             mt = base + 100 * (i % st['values'])
                             os.utime(os.path.join(r, n), (mt, mt))
                             i += 1
-                    self.sc(['--start-server'])
-                    self.server_pid = None
-                    events.append(['restart'])
-                    obs.append({'op': 'restart', 'entries': self.entries(), 'flattened': st['values']})
+                    self.start_server(events, obs, self.next_senv(), flattened=st['values'])
                     continue
                 if op == 'restart':
                     rc, _, _ = self.sc(['--stop-server'])
                     if rc != 0:
                         kill_servers(self.port)
-                    self.sc(['--start-server'])
-                    self.server_pid = None
-                    events.append(['restart'])
-                    obs.append({'op': 'restart', 'entries': self.entries()})
+                    self.start_server(events, obs, st.get('senv', []))
                     continue
                 if op == 'idle_exit':
                     # longer than SCCACHE_IDLE_TIMEOUT: the server shuts itself down; to the cache that is a restart.
@@ -732,7 +770,11 @@ class Runner:
                 s0 = self.stats()
                 self.take_log()
                 ls0 = self.listing()
+                if st.get('fault') == 'probe':
+                    shutil.rmtree(self.tmpdir, ignore_errors=True)       # the server cannot write its detection source
                 rc, out, err = self.sc([self.cc] + self.argv(st), self.client_env(st))
+                if st.get('fault') == 'probe':
+                    os.makedirs(self.tmpdir, exist_ok=True)               # ... repaired
                 ls1 = self.listing()
                 produced[tag] = sorted(f for f in ls1 if ls0.get(f) != ls1[f])
                 lines = self.take_log()
@@ -742,7 +784,9 @@ class Runner:
                 compiled, pre = self.classify_log(lines)
                 outs = self.outputs(st)
                 shas = {p: sha(os.path.join(self.ws, p)) for _, p, _ in outs}
-                if d['cache_hits'] == 1 and d['cache_misses'] == 0:
+                if d['requests_unsupported_compiler'] == 1 and d['requests_executed'] == 0:
+                    kind = 'unsupported'
+                elif d['cache_hits'] == 1 and d['cache_misses'] == 0:
                     kind = 'hit'
                 elif d['cache_misses'] == 1 and d['cache_hits'] == 0:
                     kind = 'miss_read_error' if (d['cache_errors'] or d['cache_read_errors']) else 'miss'
@@ -769,7 +813,7 @@ class Runner:
                     saved[tag] = {role: shas[p] for role, p, _ in outs}
                 # ---- the property, evaluated on the real observation (no model involved, and no knowledge of which
                 #      files sccache considers outputs: EVERY file the first compile produced must be there again)
-                if ident in stored:
+                if ident in stored and not st.get('fault'):
                     t0, entry_file, st0, files0 = stored[ident]
                     if entry_file in before_entries:
                         what = []
@@ -810,6 +854,8 @@ class Runner:
                     written = [r for r, _, _ in outs if bad != 'cc' or (self.tool == 'rustc' and r.endswith('.d'))]
                 events.append(self.abstract(st, tag, [0 if bad == 'pre' else 1, 0 if bad == 'cc' else 1, 1, size,
                                                       [r.encode() for r in written]]))
+                if st.get('fault') == 'probe':
+                    events[-1][0] = 'probefail'
         finally:
             rc, _, _ = self.sc(['--stop-server'])
             kill_servers(self.port)
@@ -1013,8 +1059,8 @@ def extra(rep, known):
                     rep.count('event.restart_by_idle_timeout')
                 if ob.get('flattened'):
                     rep.count('event.restart_with_shared_mtimes')
-            if ob['op'] == 'damage':
-                pass
+            if ob['op'] == 'compile' and ob['kind'] == 'unsupported':
+                rep.count('request.refused_by_transient_probe_failure')
             if ob['op'] == 'compile':
                 rep.evaluations += 1
                 info['requests'] += 1
